@@ -21,6 +21,8 @@ if ROUND == '9':
     MAP = {'A': 'O', 'B': 'P'}
 if ROUND == '10':
     MAP = {'A': 'Q', 'B': 'R'}
+if ROUND == '11':
+    MAP = {'A': 'S', 'B': 'T'}
 for p in sys.argv[1:]:
     notes=open('/tmp/wt/%s/seeded/NOTES.md'%p).read()
     unconfirmed = []
